@@ -616,6 +616,15 @@ func c08Sig(ast *parser.ASTNode, txt string) string {
 	return strings.Join(f, "+")
 }
 
+// c08EndsWithBareReturn: class bare-return-at-end — the last statement of the program is a bare return
+func c08EndsWithBareReturn(n *parser.ASTNode) bool {
+	bare := func(x *parser.ASTNode) bool { return x != nil && x.Name == parser.NodeRETURN && len(x.Children) == 0 }
+	if bare(n) {
+		return true
+	}
+	return n != nil && n.Name == parser.NodeSTATEMENTS && len(n.Children) > 0 && bare(n.Children[len(n.Children)-1])
+}
+
 // c08HasNewline: the printed text of the subtree contains a newline (structural: blank line, block
 // comment, multi-line list / map, any block)
 func c08HasNewline(n *parser.ASTNode) bool {
@@ -728,7 +737,10 @@ func c08Run(payload string) string {
 		return "PPERR " + oneLine(err.Error())
 	}
 	inside, ownBlank := c08Inside(ast, true)
-	rtWild := c08UnstablePost(ast, txt) || inside || c08PostfixAfterNewline(ast)
+	// inside the class the printed text must at least PARSE (rt=*p) unless a # comment swallows the rest of its line
+	// or a composition access is pushed off the identifier's line — the two shapes known to produce unparseable text
+	rtWild := c08UnstablePost(ast, txt) || c08PostfixAfterNewline(ast) || inside
+	mayNotParse := c08UnstablePost(ast, txt) || c08PostfixAfterNewline(ast) || c08EndsWithBareReturn(ast)
 	idemWild := rtWild || ownBlank || c08HasPre(ast) || c08BlockThenStatement(ast)
 	sig := c08Sig(ast, txt)
 	rt, idem := "ok", "na"
@@ -754,7 +766,11 @@ func c08Run(payload string) string {
 	}
 	if rtWild {
 		CountRun("newline-inside-statement-class.rt-" + rt)
-		rt = "*"
+		if mayNotParse {
+			rt = "*"
+		} else if rt != "noparse" {
+			rt = "*p"
+		}
 	}
 	if idemWild {
 		CountRun("layout-class.idem-" + idem)
@@ -773,7 +789,7 @@ func c08Run(payload string) string {
 	if ff {
 		res += " ff=" + c08FormatFile(src, txt)
 	}
-	if ev && (rt == "ok" || (rt == "diff" && eqm == "ok")) {
+	if ev && (rt == "ok" || (rt == "diff" && eqm == "ok")) { // (not for "*" / "*p")
 		orig := c08Behaviour(src)
 		same := orig == c08Behaviour(txt)
 		// re-association inside mul-right-brackets changes the ORDER of evaluation: when the original raises an
